@@ -325,6 +325,10 @@ def install(eng):
     def _partial(eng, f, *a, **k):
         return I.Model("partial", lambda eng_, *b, **kb: eng_.call(f, list(a) + list(b), {**k, **kb}))
 
+    @model("builtins.reversed")
+    def _reversed(eng, it):
+        return list(M.iterate(eng, it))[::-1]
+
     @model("builtins.slice", "ctor.slice")
     def _slice(eng, *a):
         a = [M.unwrap(x) for x in a]
@@ -766,6 +770,44 @@ def install(eng):
         site = M.new_reduction_site("sum", a.dtype, 1, 0, lambda oidx: oidx[0], lambda oidx, t: f(t))
         return I.Arr((n,), lambda k: site.apply((k,)), "int" if a.dtype in ("int", "bool") else a.dtype)
 
+    @model("numpy.repeat")
+    def _repeat(eng, a, repeats, axis=None):
+        a = _asarray(eng, a)
+        repeats = M.unwrap(repeats)
+        if a.ndim != 1 or axis not in (None, 0):
+            raise Unsupported("np.repeat of a multi-dimensional array")
+        if T.is_scalar(repeats):
+            if T.is_sym(repeats) or T.is_sym(a.shape[0]):
+                raise Unsupported("np.repeat with a symbolic scalar count")
+            f = a.fn
+            r = int(repeats)
+            return I.Arr((a.shape[0] * r,), lambda i: f(M.fdiv(i, r)), a.dtype)
+        reps = _asarray(eng, repeats)
+        n = a.shape[0]
+        if not T.is_sym(n) and not T.is_sym(reps.shape[0]) and all(not T.is_sym(T.simp(reps.fn(k)) if T.is_sym(reps.fn(k)) else reps.fn(k)) for k in range(int(n))):
+            out = []
+            for k in range(int(n)):
+                c = reps.fn(k)
+                c = int(T.conc(T.simp(c))) if T.is_sym(c) else int(c)
+                out += [a.fn(k)] * c
+            return M.array_from_seq(eng, out)
+        # ragged with symbolic counts: segment s of the result (counts[s] copies of a[s]) starts at off(s); off is a ghost supplied by the contract
+        hints = getattr(eng, "ghost_offsets", None)
+        if not hints:
+            raise Unsupported("np.repeat with symbolic counts without ghost offsets")
+        off = hints.pop(0)
+        nz = T.zi(n)
+        eng.oblige("ghost/offsets-start-at-zero", off(0) == 0, kind="inv-init")
+        sort = z3.IntSort() if a.dtype == "int" else z3.RealSort()
+        cat = z3.Function(f"repeat!{T.fresh('c', 'int')}", z3.IntSort(), sort)
+        for (s_, t_) in getattr(eng, "generic_segments", []):
+            s_, t_ = T.zi(s_), T.zi(t_)
+            ln = T.zi(reps.fn(s_))
+            eng.oblige("ghost/offsets-advance-by-the-length-of-each-item", z3.Implies(z3.And(s_ >= 0, s_ < nz), off(s_ + 1) - off(s_) == ln), kind="inv-step")
+            v = a.fn(s_)
+            eng.add_axiom(z3.Implies(z3.And(s_ >= 0, s_ < nz, t_ >= 0, t_ < ln), cat(off(s_) + t_) == (T.zi(v) if a.dtype == "int" else T.zr(v))))
+        return I.Arr((off(nz),), lambda j: cat(T.zi(j)), a.dtype)
+
     @model("numpy.tril_indices")
     def _tril_indices(eng, n, k=0, m=None):
         n = M.unwrap(n)
@@ -948,6 +990,29 @@ def install(eng):
         arrs = stack_list(M.iterate(eng, arrs))
         arrs = [_atleast_1d(eng, a) for a in arrs]
         return concat(eng, arrs, 0 if arrs and arrs[0].ndim == 1 else 1)
+
+    @model("numpy.stack")
+    def _stack(eng, arrs, axis=0):
+        arrs = stack_list(M.iterate(eng, arrs))
+        if not arrs:
+            raise I.PyRaise("ValueError", ("need at least one array to stack",))
+        nd = arrs[0].ndim
+        for a in arrs[1:]:
+            if a.ndim != nd or not all(M.dim_eq(x, y) or eng.proves(T.compare("eq", x, y)) for x, y in zip(a.shape, arrs[0].shape)):
+                raise I.PyRaise("ValueError", ("all input arrays must have the same shape",))
+        axis %= nd + 1
+        fns = [a.fn for a in arrs]
+        dt = arrs[0].dtype
+        for a in arrs[1:]:
+            dt = M.dtype_join(dt, a.dtype)
+        shape = list(arrs[0].shape)
+        shape.insert(axis, len(arrs))
+
+        def fn(*i):
+            k = i[axis]
+            rest = list(i[:axis]) + list(i[axis + 1:])
+            return M.select_const(k, [lambda g=g: M.coerce(g(*rest), dt) for g in fns]) if T.is_sym(k) else M.coerce(fns[k](*rest), dt)
+        return I.Arr(tuple(shape), fn, dt)
 
     @model("numpy.vstack")
     def _vstack(eng, arrs):
